@@ -6,6 +6,7 @@
    and Crash at any position, for every cache capacity and unflushed-value limit `c`. *)
 From Coq Require Import List NArith Lia.
 From V Require Import Gen.Params C11_Sequencer.Model C11_Sequencer.Lemmas C11_Sequencer.Invariant C11_Sequencer.Preserve C11_Sequencer.Link.
+From V Require Import C11_Sequencer.Scan C11_Sequencer.ScanLink C11_Sequencer.Cases.
 Import ListNotations.
 Local Open Scope N_scope.
 
@@ -49,6 +50,11 @@ Proof. exact (fun c acts s off s' H => cstart_offset c s off s' (reachable_inv c
 Theorem agrees_implies_satisfies : forall t, agrees t = true -> satisfies t = true.
 Proof. exact agrees_implies_satisfies_proved. Qed.
 
+(* the same link for the history cases of the check's case type (Cases.v); scan cases are evaluated
+   by both `agrees_c` and `satisfies_c` on every run, no link theorem is claimed for them *)
+Theorem agrees_implies_satisfies_history_case : forall t, agrees_c (CHistory t) = true -> satisfies_c (CHistory t) = true.
+Proof. exact agrees_implies_satisfies_proved. Qed.
+
 (* non-vacuity: a history with two transactions, a flush cycle, a crash, re-actualization through the
    batcher and a Next after the restart is accepted by the model (so it is reachable) *)
 Example history_nonvacuous :
@@ -60,8 +66,149 @@ Example history_nonvacuous :
   exists s, run (mkCfg 2 2) init acts = Some s /\ p_off s = 1 /\ kget 0 (v_inproc s) = Some 3.
 Proof. eexists. split; [vm_compute; reflexivity|]. split; reflexivity. Qed.
 
+(* ======================================================================================
+   The real log scan (pkg/appparts/internal/seqstorage ActualizeSequencesFromPLog) and the
+   batcher's per-event maximum.  In the theorems above a log event IS (offset, highest number per
+   key) - what the scan is supposed to deliver.  Scan.v computes it from the content of a stored
+   event exactly as the code does: `event_batch flt e` = ids of the argument ODoc tree, ids of the
+   NEW CUD rows (record-id sequence of the event's workspace), the WLog offset (WLog-offset
+   sequence); `flt` = the scan leaves ids of the reserved range 65536..200000 (singletons) out
+   (translator flag seq_scan_skips_reserved_ids, `true` since the repair of finding C11-F2); `batch_max` = the
+   batcher's maxValues map.
+   ====================================================================================== *)
+
+(* the scan of the current source leaves the reserved range out (repaired finding C11-F2); the
+   theorems below are stated for the scan with the flag the translator read from the source, so an
+   edit that removes the guard re-opens them *)
+Lemma scan_leaves_reserved_ids_out : seq_scan_skips_reserved_ids = true.
+Proof. reflexivity. Qed.
+
+(* the two sequences are different sequences, the reserved range lies below the first issued id *)
+Lemma sequences_are_distinct : seq_record_id_seq <> seq_wlog_offset_seq.
+Proof. exact seq_ids_differ. Qed.
+Lemma reserved_range_below_first_issued_id : seq_max_reserved_id < seq_first_user_id.
+Proof. reflexivity. Qed.
+
+(* (a) For an event whose record ids are ids the sequence issued (>= FirstUserRecordID) plus any
+   number of singleton / reserved-range ids - in the argument tree or among the new CUD rows, in any
+   order, next to any number of updates - the filtered scan and the batcher's maximum give per key
+   exactly the largest number the event records for the key: the largest issued record id (nothing
+   when none was issued), the WLog offset, nothing for any other key. *)
+Theorem scan_batch_is_event_numbers : forall e, ids_ok e ->
+  forall k, sk_get k (batch_max (event_batch seq_scan_skips_reserved_ids e)) = event_numbers e k.
+Proof. exact scan_batch_spec. Qed.
+
+(* The same statement for the scan without the guard (the code before fbfafe462)
+     forall e, ids_ok e -> forall k, sk_get k (batch_max (event_batch false e)) = event_numbers e k
+   is false (finding C11-F2): the event that creates a singleton records no number of the record-id
+   sequence, the unfiltered scan delivers 65536 for it. *)
+Theorem unfiltered_scan_not_event_numbers_refuted : exists e k,
+  ids_ok e /\ sk_get k (batch_max (event_batch false e)) <> event_numbers e k.
+Proof. exact (ex_intro _ f2_single (ex_intro _ f2_key unfiltered_batch_wrong)). Qed.
+
+(* (b) The bridge to the interleaving model.  For a log written by the protocol (per workspace the
+   issued record ids and the WLog offsets grow from event to event, PLog offsets grow, every other
+   id is a reserved one) the events the filtered scan delivers satisfy `log_mono` and `offs_sorted`:
+   the two hypotheses `Inv_fresh` makes about the log. *)
+Theorem real_scan_log_meets_model_hypothesis : forall lg,
+  protocol_log lg -> log_mono (model_log seq_scan_skips_reserved_ids lg) /\ offs_sorted (model_log seq_scan_skips_reserved_ids lg).
+Proof. exact real_scan_log_ok. Qed.
+
+(* ... so a sequencer started on a fitting persisted pair over such a log, reading it through the
+   real scan, starts in a state that satisfies the invariant, and the theorems above hold of every
+   history from there: every number it returns is fresh, the persisted pair stays consistent. *)
+Theorem restart_on_real_scan_satisfies_invariant : forall lg pn po,
+  protocol_log lg -> pair_fits pn po (model_log seq_scan_skips_reserved_ids lg) -> Inv (fresh pn po (model_log seq_scan_skips_reserved_ids lg)).
+Proof. exact real_scan_restart_inv. Qed.
+
+Theorem restart_on_real_scan_next_is_fresh : forall c lg pn po acts s k n s',
+  protocol_log lg -> pair_fits pn po (model_log seq_scan_skips_reserved_ids lg) ->
+  run c (fresh pn po (model_log seq_scan_skips_reserved_ids lg)) acts = Some s -> step c s (CNext k n) = Some s' ->
+  log_max k (p_log s) < n /\ num (p_nums s) k < n /\ (forall i, kget k (v_inproc s) = Some i -> i < n).
+Proof. exact real_scan_next_fresh. Qed.
+
+Theorem restart_on_real_scan_pair_consistent : forall c lg pn po acts s,
+  protocol_log lg -> pair_fits pn po (model_log seq_scan_skips_reserved_ids lg) ->
+  run c (fresh pn po (model_log seq_scan_skips_reserved_ids lg)) acts = Some s ->
+  forall k, log_max_below k (p_log s) (p_off s) <= num (p_nums s) k.
+Proof. exact real_scan_pair_consistent. Qed.
+
+(* Without the guard (the code before fbfafe462)
+     forall lg, protocol_log lg -> log_mono (model_log false lg)
+   is false, and so is freshness after a restart (finding C11-F2): unflushed tail
+   [five documents 200001..200005] [a singleton 65536] in one workspace; the sequencer restarted on
+   the unfiltered batches returns 65537 with 200005 in its log. *)
+Theorem unfiltered_scan_breaks_model_hypothesis_refuted : exists lg,
+  protocol_log lg /\ ~ log_mono (model_log false lg).
+Proof. exact (ex_intro _ f2_log (conj f2_log_protocol unfiltered_log_not_mono)). Qed.
+
+Theorem unfiltered_scan_reissues_refuted : exists c lg pn po acts s k n s',
+  protocol_log lg /\ pair_fits pn po (model_log false lg) /\
+  run c (fresh pn po (model_log false lg)) acts = Some s /\ step c s (CNext k n) = Some s' /\
+  n <= log_max k (p_log s).
+Proof.
+  exact (match unfiltered_reissues with
+         | ex_intro _ s (ex_intro _ s' (conj H1 (conj H2 H3))) =>
+             ex_intro _ (mkCfg 100 500) (ex_intro _ f2_log (ex_intro _ [] (ex_intro _ 1 (ex_intro _ f2_acts
+               (ex_intro _ s (ex_intro _ (enc f2_key) (ex_intro _ 65537 (ex_intro _ s'
+                 (conj f2_log_protocol (conj unfiltered_pair_fits (conj H1 (conj H2 H3))))))))))))
+         end).
+Qed.
+
+(* The order hypothesis of `protocol_log` cannot be dropped:
+     forall lg, Forall (fun oe => ids_ok (snd oe)) lg -> offs_sorted (model_log true lg) -> log_mono (model_log true lg)
+   is false.  Ids of the sequence's range that the sequence did not issue in this order - explicit
+   ids of two synced events, 500000 then 300000 - make the batch maxima fall along the log; the
+   sequencer (which is not told about explicit ids while it runs either) is outside its protocol there. *)
+Theorem scan_of_unordered_explicit_ids_refuted : exists lg,
+  Forall (fun oe => ids_ok (snd oe)) lg /\ offs_sorted (model_log true lg) /\ ~ log_mono (model_log true lg).
+Proof. exact (ex_intro _ ooo_log (conj (proj1 ooo_log_shape) (conj (proj2 ooo_log_shape) ooo_log_not_mono))). Qed.
+
+(* non-vacuity of (a): an ODoc argument with two nested records, a singleton, an explicit reserved id,
+   two issued ids and an update of an old record in one event *)
+Example scan_batch_nonvacuous :
+  let e := mkSEv 7 12 true [200010; 200011; 200012] [(true, 65536); (true, 200013); (false, 123456789); (true, 150000); (true, 200014)] in
+  ids_ok e /\ sk_get (7, seq_record_id_seq) (batch_max (event_batch true e)) = Some 200014
+  /\ sk_get (7, seq_wlog_offset_seq) (batch_max (event_batch true e)) = Some 12
+  /\ event_numbers e (7, seq_record_id_seq) = Some 200014
+  /\ sk_get (7, seq_record_id_seq) (batch_max (event_batch true (mkSEv 7 13 false [] [(true, 65537)]))) = None.
+Proof. split; [apply ids_okb_ok; vm_compute; reflexivity|]. repeat split; vm_compute; reflexivity. Qed.
+
+(* non-vacuity of (b): three workspaces' worth of events incl. singletons between issued ids; the
+   restart through the filtered scan refuses the re-issued number and accepts the fresh one *)
+Example real_scan_nonvacuous :
+  let lg := [(1, mkSEv 1 1 true [200001; 200002] [(true, 200003)]); (2, mkSEv 2 1 false [] [(true, 65536); (true, 200001)]);
+             (3, mkSEv 1 2 false [] [(true, 65537); (false, 200001)]); (4, mkSEv 1 3 false [] [(true, 200004); (true, 66000)])] in
+  protocol_log lg /\ pair_fits [(enc (1, seq_record_id_seq), 200003); (enc (1, seq_wlog_offset_seq), 1)] 2 (model_log true lg)
+  /\ exists s s', run (mkCfg 100 500) (fresh [] 1 (model_log true f2_log)) f2_acts = Some s
+                  /\ step (mkCfg 100 500) s (CNext (enc f2_key) 65537) = None
+                  /\ step (mkCfg 100 500) s (CNext (enc f2_key) 200006) = Some s'.
+Proof.
+  split; [apply protocol_logb_ok; vm_compute; reflexivity|]. split; [|exact filtered_restart_example].
+  split; [|split].
+  - intros k. unfold log_max_below, num. cbn [model_log map fold_left model_event fst snd].
+    destruct (N.eq_dec k (enc (1, seq_record_id_seq))) as [->|N1]; [vm_compute; discriminate|].
+    destruct (N.eq_dec k (enc (1, seq_wlog_offset_seq))) as [->|N2]; [vm_compute; discriminate|].
+    apply N.eqb_neq in N1, N2. vm_compute in N1, N2. vm_compute. rewrite N1, N2.
+    destruct (k =? 131077); destruct (k =? 131076); vm_compute; discriminate.
+  - intros k. unfold num. cbn [kget].
+    destruct (N.eqb_spec k (enc (1, seq_record_id_seq))) as [->|N1]; [vm_compute; discriminate|].
+    destruct (N.eqb_spec k (enc (1, seq_wlog_offset_seq))) as [->|N2]; [vm_compute; discriminate|]. lia.
+  - intros _. vm_compute. discriminate.
+Qed.
+
 Print Assumptions persisted_pair_consistent.
 Print Assumptions next_is_fresh.
 Print Assumptions log_numbers_increase.
 Print Assumptions start_offset_consecutive.
 Print Assumptions agrees_implies_satisfies.
+Print Assumptions scan_batch_is_event_numbers.
+Print Assumptions unfiltered_scan_not_event_numbers_refuted.
+Print Assumptions real_scan_log_meets_model_hypothesis.
+Print Assumptions restart_on_real_scan_satisfies_invariant.
+Print Assumptions restart_on_real_scan_next_is_fresh.
+Print Assumptions restart_on_real_scan_pair_consistent.
+Print Assumptions unfiltered_scan_breaks_model_hypothesis_refuted.
+Print Assumptions unfiltered_scan_reissues_refuted.
+Print Assumptions scan_of_unordered_explicit_ids_refuted.
+Print Assumptions agrees_implies_satisfies_history_case.
